@@ -15,6 +15,7 @@ const (
 	wRMutex // waiting for read lock
 	wSelect // select / send / recv
 	wQuiesce
+	wWaitGroup // sync.WaitGroup.Wait
 )
 
 type selCase struct {
@@ -45,6 +46,7 @@ type mutexState struct {
 	readers int
 	vc      []int
 	cell    *Cell
+	count   int // sync.WaitGroup counter (the same record serves wait groups)
 }
 
 func (ex *Exec) newChan(capT *Term, t types.Type, name string) *ChanObj {
@@ -131,6 +133,8 @@ func (ex *Exec) enabled(g *G) bool {
 		return !g.wait.mu.held && g.wait.mu.readers == 0
 	case wRMutex:
 		return !g.wait.mu.held
+	case wWaitGroup:
+		return g.wait.mu.count == 0
 	case wSelect:
 		for _, c := range g.wait.cases {
 			if ex.caseReady(g, c) {
@@ -296,6 +300,9 @@ func (ex *Exec) wake(g *G) {
 		ex.vcJoin(g, w.mu.vc)
 	case wQuiesce:
 		g.wait = nil
+	case wWaitGroup:
+		g.wait = nil
+		ex.vcJoin(g, w.mu.vc)
 	case wSelect:
 		var ready []int
 		for i, c := range w.cases {
@@ -609,6 +616,36 @@ func (ex *Exec) mutexRUnlock(g *G, p *PtrV) {
 	ex.vcTickLazy(g)
 	m.vc = vcMax(m.vc, g.vc)
 	ex.vcTick(g)
+}
+
+// ---- sync.WaitGroup ----
+
+func (ex *Exec) wgAdd(g *G, p *PtrV, delta int) {
+	if ex.merging > 0 {
+		panic(mergeAbort{"WaitGroup in arm"})
+	}
+	m := ex.mutexOf(p)
+	m.count += delta
+	if m.count < 0 {
+		ex.goPanic("sync: negative WaitGroup counter")
+	}
+	if delta < 0 { // Done: release
+		ex.vcTickLazy(g)
+		m.vc = vcMax(m.vc, g.vc)
+		ex.vcTick(g)
+	}
+}
+
+func (ex *Exec) wgWait(g *G, p *PtrV) {
+	if ex.merging > 0 {
+		panic(mergeAbort{"WaitGroup in arm"})
+	}
+	m := ex.mutexOf(p)
+	if m.count > 0 {
+		ex.park(g, &Wait{kind: wWaitGroup, mu: m})
+		return
+	}
+	ex.vcJoin(g, m.vc)
 }
 
 func (ex *Exec) heldBy(g *G, c *Cell) bool {
